@@ -29,6 +29,18 @@ WHY = {
  "C18-b3": "a versioned query filtered by instance-level (unversioned) Z extents: would need a notion of which fields are per version",
  "C18-c2": "value-level: `else if` instead of `if` between the left and right extension in RLEs.Add (legacy labelvol only)",
  "C18-e3": "value-level: the '+X neighbour' test of WriteRLEs (x+1 == x') weakened to an order comparison; an exact-form rule on the comparison would be a frozen fragment",
+ "C03-m1": "value-level: the start-up recomputation of branch heads counts any child as a continuation (the child's branch is no longer compared with the node's); the running server sets heads directly, so only the rebuild differs — a rule on this one comparison would be a frozen fragment",
+ "C05-m4": "value-level: `len(kv.V) == 0` instead of `kv.V == nil` as the skip test of one range callback; the package has legitimate emptiness tests (an empty value is sent as {}), so 'no emptiness test' is not a shape of the unchanged code",
+ "C08-m3": "a new shortcut in front of GetLabelIndex that confuses body ids with supervoxel ids (returns nil when the mapping sends the id elsewhere); no must-pass-through on the slow path separates it from the existing 'index not found' returns",
+ "C09-m1": "value-level: a 'previous label' cache in encodeBlock's first pass initialised with MaxUint64, itself a legal label (the same idea as C09-b1)",
+ "C10-m1": "value-level: the slot MergeLabels reuses for an absent target is a zero-initialised minimum that never updates (the same site as C10-h1)",
+ "C10-m3": "value-level: SplitStats fetches the relabeling only the first time a supervoxel is seen but assigns it from a loop-shared variable on every voxel; which variable is read is not a shape",
+ "C13-m3": "value-level: the intermediate flush of resyncLowMemory is handed the current block's elements instead of the accumulator that is cleared afterwards",
+ "C15-m4": "ownership/timing: a pooled snappy scratch buffer is put back before the envelope has copied it; needs an ownership analysis of sync.Pool values across a call",
+ "C16-m4": "value-level: an integral float is no longer normalised in checkField (the same change as C16-c1)",
+ "C17-m2": "the alignment refusal of PutVoxels made conditional on the mutate flag; the triggering request is itself outside C17's quantifier (block-aligned writes), so no rule was written",
+ "C17-m3": "a new whole-plane fast path in readBlock whose condition omits 'the block's rows are wanted from x = 0'; value-level (which offsets make the fast path legal)",
+ "C18-m3": "value-level: `x1 <= x` instead of `x1 < x` as the skip test of InsideFast (the last block of every span reported outside)",
  "C19-b3": "value-level: which ancestors calcVersionPath keeps",
  "C20-b2": "value-level: order of swap-with-last deletions",
  "C20-c3": "ordering: a consistency check moved behind the block rewrite in SplitLabels (split endpoint, off by default); 'validate before the first store write' is not a shape the unchanged handlers share",
